@@ -253,7 +253,7 @@ TOKENIZER = [
     decreases self.len() - self.off(), 2int,''',
     ops=[],
   ),
-  F('Tokenizer::string_token',
+  F('Tokenizer::string_token', props=['C01', 'C05', 'C10', 'C12'],   # C12: a string payload never contains its own delimiter, so the printer always has a free quote
     spec=r'''    requires old(self).in_token(start as int), start + 1 == old(self).off(),
         old(self).bytes()[start as int] == old(self).cur_char as u8,
         old(self).cur_char == '"' || old(self).cur_char == '\'',
